@@ -20,9 +20,10 @@ LEVEL = "exploration"
 RULE = (
     "seeded generator over (approximator class, polynomial/exp-sin function, point kind "
     "(interior / on ub / within a fraction of a step of ub / zero components), step, component subset, "
-    "scalar or per-component step, serial or 2-process parallel, design space none/physical/normalised) plus "
+    "scalar or per-component step, step given to the constructor or to f_gradient, serial or 2-process parallel, "
+    "design space none/physical/normalised) plus "
     "discipline-level cases (linearize in each approximation mode, check_jacobian with correct and wrong "
-    "analytic Jacobian and full/partial indices); a case is distinct by that tuple (function coefficients "
+    "analytic Jacobian and full/partial indices, cache tolerance of the discipline 0 or above the step); a case is distinct by that tuple (function coefficients "
     "excluded) and non-trivial when the function has a non-zero derivative bound for a differentiated component"
 )
 ASSUMPTIONS = [
@@ -46,10 +47,12 @@ ANCHORS = [
 MIN_COUNTERS = {
     "quick": {"grad_oracle_evaluations": 6000, "points_checked_against_ub": 12000, "near_ub_cases": 500,
               "subset_cases": 1500, "parallel_equals_serial_checked": 150, "discipline_linearize_checked": 300,
-              "check_jacobian_verdicts": 1200},
+              "check_jacobian_verdicts": 1200, "step_given_at_call_cases": 3000,
+              "discipline_cases_with_cache_tolerance_above_the_step": 300},
     "thorough": {"grad_oracle_evaluations": 50000, "points_checked_against_ub": 100000, "near_ub_cases": 3000,
                  "subset_cases": 10000, "parallel_equals_serial_checked": 1500,
-                 "discipline_linearize_checked": 800, "check_jacobian_verdicts": 800},
+                 "discipline_linearize_checked": 800, "check_jacobian_verdicts": 800, "step_given_at_call_cases": 25000,
+                 "discipline_cases_with_cache_tolerance_above_the_step": 800},
 }
 SHARD_TIMEOUT = {"quick": 400, "thorough": 2400}
 
@@ -123,6 +126,9 @@ def gen_case(rng):
         case["step"] = [float(step * f_) for f_ in rng.choice([0.5, 1.0, 2.0], size=n)]
     else:
         case["step"] = step
+    # how the step reaches the approximator: constructor, or f_gradient(step=...) with the constructor holding
+    # the default / another step (the step given at call time is the one in force)
+    case["step_via"] = str(rng.choice(["ctor", "ctor", "call", "call_other_ctor"]))
     return case
 
 
@@ -131,7 +137,8 @@ def case_signature(case):
     return (case["approx"], case["func"]["kind"], case["n"], case["m"],
             None if sp is None else (sp["normalize"], tuple(sp["kinds"])),
             tuple(case["indices"]), isinstance(case["step"], list), case["parallel"],
-            tuple(np.asarray(case["x"]) == 0.0), round(np.log10(np.min(np.abs(case["step"])))))
+            tuple(np.asarray(case["x"]) == 0.0), round(np.log10(np.min(np.abs(case["step"])))),
+            case.get("step_via", "ctor"))
 
 
 def features(case):
@@ -144,6 +151,8 @@ def features(case):
         f.append("perstep")
     if case["parallel"]:
         f.append("parallel")
+    if case.get("step_via", "ctor") != "ctor":
+        f.append("step-at-call")
     return "+".join(f) or "plain"
 
 
@@ -185,9 +194,20 @@ def judge(case, rep, *, count=True):
     _, fun, cls, kwargs = build(case, pts)
     if case["parallel"]:
         kwargs.update(parallel=True, n_processes=2, use_threading=False)
+    via = case.get("step_via", "ctor")
     try:
-        app = cls(fun, step=step, **kwargs)
-        J = app.f_gradient(x.copy(), x_indices=list(case["indices"]))
+        if via == "ctor":
+            app = cls(fun, step=step, **kwargs)
+            J = app.f_gradient(x.copy(), x_indices=list(case["indices"]))
+        else:
+            if via == "call":
+                app = cls(fun, **kwargs)
+            else:
+                other = step * 100.0 if case["approx"] != "cs" else step * 1e-3
+                app = cls(fun, step=other, **kwargs)
+            J = app.f_gradient(x.copy(), step=step, x_indices=list(case["indices"]))
+            if count:
+                rep.count("step_given_at_call_cases")
     except Exception as e:  # valid inputs: any exception is a failure to return a Jacobian
         rep.violation(f"C16:{cname}:exception:{type(e).__name__}:{feat}", "returns-a-jacobian", case,
                       observed=f"{type(e).__name__}: {e}", expected="a Jacobian of shape (m, len(indices))")
@@ -371,6 +391,8 @@ def gen_disc_case(rng):
             k = int(rng.integers(1, s))
             ind[f"y{i}"] = sorted(int(v) for v in rng.choice(s, size=k, replace=False))
     case["indices"] = ind
+    # tolerance of the discipline cache: larger than every differentiation step in two cases out of three
+    case["cache_tol"] = float(rng.choice([0.0, 1e-4, 1e-2]))
     return case
 
 
@@ -380,7 +402,7 @@ def run_disc_case(case, rep):
     sizes_in, sizes_out = case["sizes_in"], case["sizes_out"]
     x = np.array(case["x"])
     rep.case(("disc", tuple(sizes_in), tuple(sizes_out), tuple(sorted((k, tuple(v)) for k, v in case["indices"].items())),
-              case["func"]["kind"]), True)
+              case["func"]["kind"], case.get("cache_tol", 0.0)), True)
 
     def data():
         out, o = {}, 0
@@ -393,6 +415,9 @@ def run_disc_case(case, rep):
     for mode, step in (("finite_differences", 1e-6), ("centered_differences", 1e-5), ("complex_step", 1e-20)):
         d, f, ins, outs = make_discipline(case["func"], sizes_in, sizes_out)
         Jex = f.jac(x)
+        if case.get("cache_tol"):
+            d.cache.tolerance = case["cache_tol"]
+            rep.count("discipline_cases_with_cache_tolerance_above_the_step")
         try:
             d.set_jacobian_approximation(getattr(Discipline.ApproximationMode, mode.upper()), jax_approx_step=step)
             jac = d.linearize(data(), compute_all_jacobians=True)
@@ -435,6 +460,8 @@ def run_disc_case(case, rep):
                 if not ind and derr != "finite_differences" and which == "correct":
                     pass
                 d, f, ins, outs = make_discipline(case["func"], sizes_in, sizes_out, wrong=wrong if which == "wrong" else None)
+                if case.get("cache_tol"):
+                    d.cache.tolerance = case["cache_tol"]
                 # is the wrong entry inside the checked indices?
                 visible = True
                 if which == "wrong" and ind:
@@ -491,7 +518,13 @@ def directed_cases():
                     out.append({"approx": approx, "func": poly, "n": 3, "m": 2, "parallel": False,
                                 "space": {"lb": lb, "ub": ub, "normalize": norm, "kinds": kinds},
                                 "x": x, "indices": idx, "step": step})
-    return out
+    extra = []
+    for c in out:
+        if not c["parallel"] or c["space"] is None:
+            for via in ("call", "call_other_ctor"):
+                if (len(extra) + len(out)) % 3 == 0 or c["parallel"]:
+                    extra.append(dict(c, step_via=via))
+    return out + extra
 
 
 # --------------------------------------------------------------------------- entry points
